@@ -4,7 +4,7 @@ From Coq Require Import ZArith List Bool Lia.
 From PB Require Import lib.SumZ lib.PySlice lib.Arr C11.DtD C11.Table gen.GenBands C11.Banded C11.History
                        C11.Uses C11.UsesProofs C11.PSplineSys C11.PSplineSysProofs
                        C11.Effects C11.EffectsProofs gen.GenBandEffects
-                       C11.Sys2D C11.Sys2DProofs gen.GenBandEffects2D C11.Sites gen.GenPenaltySites.
+                       C11.Sys2D C11.Sys2DProofs gen.GenBandEffects2D C11.Sites gen.GenPenaltySites gen.GenBandEvents2D.
 Import ListNotations.
 Open Scope Z_scope.
 
@@ -540,3 +540,13 @@ Print Assumptions C11_penalty_sites_sound.
 Theorem C11_rescale_keeps_order : forall (k lam0 : Z) (P : arr), aeq (scale k (scale lam0 P)) (scale (k * lam0) P).
 Proof. exact rescale_same_order. Qed.
 Print Assumptions C11_rescale_keeps_order.
+
+(* ---- exception safety of EVERY mutator of the 2-D systems, including the eigendecomposition mode of
+   WhittakerSystem2D (reset_diagonals / reset_penalty / update_penalty / solve / basis) that C11/Sys2D.v does
+   not model: events generated from the source path by path (an `if ...: ...; return` splits the path,
+   calls of the object's own methods and of super() are expanded); on every path no attribute of self is
+   assigned before the last statement that can raise (soundness: C11_strongly_safe_sound). ---- *)
+Theorem C11_mutators2d_strongly_safe :
+  forallb (fun m => strongly_safe (snd m)) mutator2d_events = true.
+Proof. vm_compute. reflexivity. Qed.
+Print Assumptions C11_mutators2d_strongly_safe.
